@@ -87,7 +87,7 @@ static void check_decode(const std::string &types, const std::vector<ref::Arg> &
     vp::transition(4);
     if(types != rtosc_argument_string(msg))
         vp::violation("argument-string|" + sh, cid, std::string("got '") + rtosc_argument_string(msg) + "'");
-    for(size_t extra : {size_t(0), size_t(8)}) {
+    for(size_t extra : {size_t(0), size_t(8), (size_t)1 << 40, (size_t)-1 - len}) {      // the bound is an upper bound: also 2^40 and SIZE_MAX ("unknown")
         size_t ml = rtosc_message_length(msg, len + extra);
         if(ml != len)
             vp::violation("message-length|" + sh + (extra ? "|slack" : "|exact"), cid,
